@@ -518,17 +518,16 @@ def txn_flow(ctx, r):
         return
     txn = txns[0]
     g = vfgmod.VFG(prog)
-    fields = prog.adts[txn]["variants"][0]["fields"]
-    key_f = [f["name"] for f in fields if prog.types[f["ty"]].get("k") == "param"]
-    size_f = [f["name"] for f in fields if prog.ty_str(f["ty"]) == "u64"]
-    hasher_f = [f["name"] for f in fields if "blake3::Hasher" in prog.ty_str(f["ty"])]
+    from .c13 import txn_parts
+    parts = txn_parts(ctx, txn)
+    key_f, size_f, hasher_f = parts["key"], parts["size"], parts["hasher"]
     if len(key_f) != 1 or len(size_f) != 1 or len(hasher_f) != 1:
         r.bad("txn-fields", None, "transaction fields not unique: key %s size %s hasher %s" % (key_f, size_f, hasher_f))
         return
-    g.seed(("F", txn, key_f[0]), "TXN_KEY")
-    g.seed(("F", txn, size_f[0]), "TXN_SIZE")
+    g.seed(key_f[0], "TXN_KEY")
+    g.seed(size_f[0], "TXN_SIZE")
     # finalize(hasher) results: the hasher is the transaction's (possibly moved into an internal struct or a local)
-    g.seed(("F", txn, hasher_f[0]), "TXN_HASHER")
+    g.seed(hasher_f[0], "TXN_HASHER")
     g.solve()
     for b in prog.bodies.values():
         for s in b.calls():
@@ -536,7 +535,7 @@ def txn_flow(ctx, r):
                 root = ctx.world.root_place(b, s.term["args"][0])
                 if root is None:
                     continue
-                if g.node_of_place(b, root) == ("F", txn, hasher_f[0]) or \
+                if g.node_of_place(b, root) == hasher_f[0] or \
                         "TXN_HASHER" in g.labels.get(g.node_of_place(b, root), ()):
                     g.seed(g.node_of_place(b, s.term["dest"]), "TXN_HASH")
     # do not let labels flow through the hasher/size into each other: size is a plain counter
